@@ -42,7 +42,10 @@ fn ddec(a: &[&str]) -> String {
         None => "?no-type".into()
     }
 }
-/// DRT sid schema def value expect [reframed-hex ...]  ->  <hex>;<outcome>;<outcome of each re-framed encoding>
+/// DRT sid schema def value expect [reframed-hex ...] [c=<choices>]  ->  <hex>;<outcome>;<outcome of each re-framed encoding>
+/// With a `c=` token the first re-framed encoding is the one the choice list selects under Model/DeriveReframe.v
+/// (theorem C09_roundtrip_reframed); it is echoed as `R<hex>:<outcome>` so that the model side, which computes it from
+/// the choices, is compared with the generator's bytes.
 fn drt(a: &[&str]) -> String {
     let o = match lookup(a[0], a[2]) { Some(o) => o, None => return "?no-type".into() };
     let (bytes, _) = (o.encb)(a[3]);
@@ -50,12 +53,15 @@ fn drt(a: &[&str]) -> String {
     let (r, mut verdict) = (o.dec)(&bytes);
     if verdict.is_ok() && r != expect { verdict = Err(format!("round trip: expected {} got {}", expect, r)) }
     let mut outs = vec![hex_or_dash(&bytes), r];
-    for h in &a[5 ..] {
+    let with_choices = a[5 ..].iter().any(|h| h.starts_with("c="));
+    let mut first = true;
+    for h in a[5 ..].iter().filter(|h| !h.starts_with("c=")) {
         let b = unhex(h);
         let (r2, v2) = (o.dec)(&b);
         let e2 = format!("ok:{}@{}", a[4], b.len());
         if verdict.is_ok() { if let Err(w) = v2 { verdict = Err(w) } else if r2 != e2 { verdict = Err(format!("re-framed {}: expected {} got {}", h, e2, r2)) } }
-        outs.push(r2);
+        outs.push(if with_choices && first { format!("R{}:{}", hex_or_dash(&b), r2) } else { r2 });
+        first = false;
     }
     with_oracle(outs.join(";"), verdict)
 }
